@@ -20,7 +20,7 @@ inductive Handler
   | discourageNops
   | mkIf (reverse : Bool)             -- `make_if(reverse_bool)`
   | misc_ELSE | misc_ENDIF | misc_RESERVED | misc_CODESEPARATOR | misc_TOALTSTACK | misc_FROMALTSTACK
-  | misc_CHECKLOCKTIMEVERIFY | misc_CHECKSEQUENCEVERIFY
+  | misc_CHECKLOCKTIMEVERIFY | misc_CHECKSEQUENCEVERIFY | misc_IFDUP
   -- stackops.py
   | stack_NOP | stack_VER | stack_RESERVED1 | stack_RESERVED2 | stack_RETURN
   | stack_2DROP | stack_2DUP | stack_3DUP | stack_2OVER | stack_2ROT | stack_2SWAP | stack_IFDUP
